@@ -246,7 +246,7 @@ def _validate(args):
   part, recs = args
   text = "\n".join(json.dumps(x, separators=(",", ":")) for x in recs) + "\n"
   res = T.run_tlc("Trace_Stl", CFG_TRACE, workers=1, env={"TRACE_FILE": "trace.ndjson"},
-                  extra_files={"trace.ndjson": text}, timeout=3000, name="stl_trace%d" % part, java_opts=("-Xmx4g",))
+                  extra_files={"trace.ndjson": text}, timeout=3000, name="stl_trace%d" % part, java_opts=("-Xmx4g", "-Xss256m"))
   return recs, res
 
 
